@@ -1,0 +1,9 @@
+//go:build !verif
+
+package fzf
+
+// No-op stubs of the verification hook points (see verif_hooks.go, build tag "verif").
+
+func verifPoint(name string, n int) {}
+
+func verifTrace(kind string, a int, b int, s string) {}
